@@ -308,3 +308,38 @@ pub fn myers_one(u: &mut Unstructured) {
         }
     }
 }
+
+/// one libFuzzer input for the FASTA/FASTQ byte-level target (C11, "arbitrary bytes" clause): the first
+/// bytes choose the BufReader capacity, the read() schedule and the construction path, the rest is the file
+pub fn fastx_one(u: &mut Unstructured) {
+    init();
+    use crate::props::c11;
+    let r = (|| -> AResult<c11::BytesCase> {
+        let cap = match u.int_in_range(0..=3)? {
+            0 => 1,
+            1 => u.int_in_range(2..=64)?,
+            _ => 8192,
+        };
+        let ns = u.int_in_range(1..=4)?;
+        let mut sched = Vec::new();
+        for _ in 0..ns {
+            sched.push(match u.int_in_range(0..=9)? {
+                0 => 0, // one injected ErrorKind::Interrupted
+                1..=5 => u.int_in_range(1..=3)?,
+                6..=8 => u.int_in_range(1..=50)?,
+                _ => 9000,
+            });
+        }
+        if sched.iter().all(|&s| s == 0) {
+            sched.push(1);
+        }
+        let path = u.int_in_range(0..=3)?;
+        let n = u.len();
+        let rest = u.bytes(n)?;
+        Ok(c11::BytesCase { data: B(rest.to_vec()), io: c11::Io { cap, sched, path } })
+    })();
+    if let Ok(c) = r {
+        let v = guarded(c11::check_bytes, &c);
+        finish("C11", "C11/bytes", &c, v);
+    }
+}
